@@ -84,7 +84,8 @@ Section Px.
 
   Definition px_prims : prims N :=
     {| p_lstat := px_stat false; p_stat := px_stat true; p_read_dir := px_read_dir;
-       p_dir_names := px_dir_names; p_match := match_of true; p_not_exist := N.eqb ENOENT |}.
+       p_dir_names := px_dir_names; p_match := match_of false;   (* path/filepath.Match does not validate the rest of the pattern *)
+       p_not_exist := N.eqb ENOENT |}.
 End Px.
 
 (* the specification view of an implementation world: same heap, same user; the working directory as a node *)
